@@ -57,6 +57,9 @@ pub const RATIOS: [f64; 9] = [1.0 / 16.0, 0.25, 0.7, 147.0 / 160.0, 1.0, 160.0 /
 struct Unit<T: Flt> {
     cfg: Cfg,
     r: crate::any::Any<T>,
+    /// the chunk size is changed while the stream runs: two calls at the constructor's size, two
+    /// at 3/10 of it, and so on (sinc types only) - "for every way of chunking the stream"
+    dance: bool,
 }
 
 struct ToneOut {
@@ -70,7 +73,7 @@ struct ToneOut {
 
 impl<T: Flt> Unit<T> {
     fn new(cfg: &Cfg) -> Result<Self, String> {
-        Ok(Unit { cfg: cfg.clone(), r: cfg.build::<T>()? })
+        Ok(Unit { cfg: cfg.clone(), r: cfg.build::<T>()?, dance: false })
     }
 
     /// Resample x (after reset) and return the output.
@@ -80,7 +83,16 @@ impl<T: Flt> Unit<T> {
         let mut pos = 0usize;
         let mut obuf: Vec<Vec<T>> = self.r.output_buffer_allocate(true);
         let mut ibuf: Vec<Vec<T>> = vec![Vec::new()];
+        let mut calls = 0usize;
         loop {
+            if self.dance && self.cfg.kind.is_sinc() {
+                if calls % 4 == 2 {
+                    self.r.set_chunk_size((self.cfg.chunk * 3 / 10).max(1)).map_err(|e| format!("set_chunk_size: {}", e))?;
+                } else if calls % 4 == 0 && calls > 0 {
+                    self.r.set_chunk_size(self.cfg.chunk).map_err(|e| format!("set_chunk_size: {}", e))?;
+                }
+            }
+            calls += 1;
             let need = self.r.input_frames_next();
             if pos + need > x.len() {
                 break;
@@ -215,7 +227,13 @@ fn sinc_cfg(kind: Kind, ratio: f64, chunk: usize, l: usize, os: usize, interp: I
 
 #[allow(clippy::too_many_arguments)]
 fn c01_unit<T: Flt>(acc: &mut Acc, cfg: &Cfg, edge: f64, beta_of: &dyn Fn(f64) -> f64, amp_tol: f64, tones: &[f64], journal: Option<&JournalFile>, meta: Value) -> Result<(), String> {
+    c01_unit_d::<T>(acc, cfg, edge, beta_of, amp_tol, tones, journal, meta, false)
+}
+
+#[allow(clippy::too_many_arguments)]
+fn c01_unit_d<T: Flt>(acc: &mut Acc, cfg: &Cfg, edge: f64, beta_of: &dyn Fn(f64) -> f64, amp_tol: f64, tones: &[f64], journal: Option<&JournalFile>, meta: Value, dance: bool) -> Result<(), String> {
     let mut u = Unit::<T>::new(cfg)?;
+    u.dance = dance;
     let a = 0.8;
     // "to single precision": measured f32 rounding noise peaks at 2^-19.5 of the amplitude (256 taps)
     let floor = if T::IS_F32 { 2f64.powi(-18) } else { 0.0 };
@@ -237,7 +255,7 @@ fn c01_unit<T: Flt>(acc: &mut Acc, cfg: &Cfg, edge: f64, beta_of: &dyn Fn(f64) -
             acc.nontrivial += 1;
         }
         let beta = beta_of(PI * f).max(floor);
-        let point = format!("T={} tone at {}*passband edge (f={:.6} of input Nyquist)", T::NAME, frac, f);
+        let point = format!("T={} tone at {}*passband edge (f={:.6} of input Nyquist){}", T::NAME, frac, f, if dance { ", chunk size changed every second call" } else { "" });
         let mut x = meta.clone();
         x["tone_frac"] = json!(frac);
         x["T"] = json!(T::NAME);
@@ -345,6 +363,15 @@ impl Check for C01 {
                         if !(q && kind == Kind::SO) {
                             c01_unit::<f32>(&mut acc, &cfg, edge, &beta, amp_tol(window), &tones, journal, meta.clone())?;
                         }
+                    }
+                    // the same stream cut into chunks whose size changes while it runs (a
+                    // constructor size above twice the filter length, shrunk and restored)
+                    for kind in [Kind::SI, Kind::SO] {
+                        let mut cfg = sinc_cfg(kind, ratio, 1100, l, os, interp, window, f_cutoff);
+                        cfg.max_rel = 1.0;
+                        let mut m = meta.clone();
+                        m["chunk_dance"] = json!(true);
+                        c01_unit_d::<f64>(&mut acc, &cfg, edge, &beta, amp_tol(window), &tones[tones.len() - 2..], journal, m, true)?;
                     }
                 }
             }
